@@ -303,7 +303,8 @@ Qed.
 
 (* Scope of run3: restore_in_order finds a write's saved value by its field; that is the value the write itself saved exactly
    when no two active writes share a field (disjoint_writes, evaluated on every case).  With overlapping writes the real
-   schedule (outer feature undone early, inner one late) would not be restoring and run3 is not claimed to describe it. *)
+   schedule (outer feature undone early, inner one late) would not be restoring and run3 is not claimed to describe it;
+   RestoreTagged.run4 undoes every write by its own saved value, proves the same theorem and exhibits the failing overlap. *)
 
 Example coverage_gc_profile_schedule :
   let fs := [ [ {| w_field := 4; w_val := 5; w_late := false; w_early := true |}; {| w_field := 5; w_val := 5; w_late := false; w_early := true |} ];
